@@ -182,6 +182,25 @@ func (t *tables) bal(addr string) *balance {
 	return zeroBalance()
 }
 
+// proposalRec parses the stored record of proposal id ("" status: no such proposal).
+func (t *tables) proposalRec(id string) (status string, votes *big.Int) {
+	var pr struct {
+		Status string   `json:"status"`
+		Votes  *big.Int `json:"vote_amount"`
+	}
+	v, ok := t.Raw[bktProposal][id]
+	if !ok || json.Unmarshal([]byte(v), &pr) != nil {
+		return "", new(big.Int)
+	}
+	if pr.Votes == nil {
+		pr.Votes = new(big.Int)
+	}
+	return pr.Status, pr.Votes
+}
+
+func (t *tables) status(id string) string  { s, _ := t.proposalRec(id); return s }
+func (t *tables) votes(id string) *big.Int { _, v := t.proposalRec(id); return v }
+
 func (t *tables) initialised() bool { return t.Raw[bktGov]["distributed"] == "true" }
 
 func (t *tables) sum() *big.Int {
@@ -377,6 +396,15 @@ type inst struct {
 	probeClass string           // non-empty: this instance executes one sweep probe of that amount / name class
 	probeTag   string           // "probe" (amount sweep) or "nprobe" (name sweep)
 	sweepViol  []core.Violation // replay mode only: violations found by the probes of a sweep
+
+	// reference bookkeeping of the open obligations (section "obligations")
+	oblig    map[string]map[string]*big.Int // proposal id -> account -> tokens that account locked for it (deposit + votes, minus a thawed deposit)
+	deposit  map[string]string              // proposal id -> the proposer (made the deposit)
+	thawed   map[string]bool                // proposal id -> the proposer has thawed (deposit released)
+	preDue   map[string]*big.Int            // per account: sum of its obligations towards proposals in status voting, before the last event
+	preOpen  map[string]int                 // per account: number of voting proposals it had obligations towards, before the last event
+	rethaw   bool                           // the last event was a Thaw of a proposal whose deposit the reference had already released
+	maxProps int                            // pass "obligations": number of proposals the alphabet opens
 }
 
 func worldConfig() world.Config {
@@ -396,7 +424,8 @@ func newInst(cnt *counters, col *collector, alpha string, depths ...int) *inst {
 	if err := registerTdpos(w); err != nil {
 		core.HarnessError("c19: tdpos: %v", err)
 	}
-	i := &inst{w: w, tip: w.Genesis, cnt: cnt, col: col, alpha: alpha, spellDepth: 1 << 20, nameDepth: 1 << 20}
+	i := &inst{w: w, tip: w.Genesis, cnt: cnt, col: col, alpha: alpha, spellDepth: 1 << 20, nameDepth: 1 << 20,
+		oblig: map[string]map[string]*big.Int{}, deposit: map[string]string{}, thawed: map[string]bool{}, maxProps: 2}
 	if len(depths) >= 1 {
 		i.spellDepth = depths[0]
 	}
@@ -507,6 +536,22 @@ func (i *inst) amountArg(s *step, tok, acc, lt string) {
 	s.Canon = s.Amt != nil && s.Amt.Sign() >= 0 && s.Amt.String() == s.Raw
 }
 
+// proposal parameters of the alphabet: every proposal asks for 51 percent of the
+// supply; the deposit is fixed by the contract. Heights relative to the tip at
+// the time of the Propose call (the call itself lands in block tip+1; the call
+// of a block runs before the timer task of that block): the short period leaves
+// two calls before the tally and one between tally and trigger, the long
+// period four and one.
+const (
+	proposalDeposit = 1000
+	minVotePercent  = 51
+	passThreshold   = (quotaA + quotaB) * minVotePercent / 100
+	shortStop       = 3
+	shortTrigger    = 4
+	longStop        = 5
+	longTrigger     = 6
+)
+
 func proposalJSON(stop, trigger int64) string {
 	return fmt.Sprintf(`{"args":{"min_vote_percent":"51","stop_vote_height":"%d"},"trigger":{"height":%d,"module":"xkernel","contract":"$govern_token","method":"TotalSupply","args":{}}}`, stop, trigger)
 }
@@ -548,14 +593,26 @@ func (i *inst) request(ev string) (*step, *protos.InvokeRequest) {
 		req.Args["from"] = []byte(nameStr(s.Target))
 		req.Args["amount"] = []byte(s.Raw)
 		req.Args["lock_type"] = []byte(s.LT)
-	case "propose": // propose:a
+	case "propose": // propose:a (voting ends at tip+3, trigger at tip+4) | propose:a:l (tip+5 / tip+6)
 		s.From = f[1]
-		s.Amt = big.NewInt(1000) // fixed by the contract; Propose takes no amount argument
+		s.Amt = big.NewInt(proposalDeposit) // fixed by the contract; Propose takes no amount argument
 		req.ContractName, req.MethodName = "$proposal", "Propose"
-		req.Args["proposal"] = []byte(proposalJSON(tipH+3, tipH+4))
-	case "vote": // vote:p:b:amt
+		stop, trig := tipH+shortStop, tipH+shortTrigger
+		if len(f) == 3 && f[2] == "l" {
+			stop, trig = tipH+longStop, tipH+longTrigger
+		}
+		req.Args["proposal"] = []byte(proposalJSON(stop, trig))
+	case "vote": // vote:p:b:amt ; amt 'pass' = what the proposal still lacks to reach min_vote_percent (at least 1)
 		s.From = f[2]
-		i.amountArg(s, f[3], s.From, typeOrdinary)
+		if f[3] == "pass" {
+			n := new(big.Int).Sub(big.NewInt(passThreshold), i.cur.votes(f[1]))
+			if n.Sign() <= 0 {
+				n = big.NewInt(1)
+			}
+			s.Amt, s.Raw, s.HasAmt, s.Canon = n, n.String(), true, true
+		} else {
+			i.amountArg(s, f[3], s.From, typeOrdinary)
+		}
 		req.ContractName, req.MethodName = "$proposal", "Vote"
 		req.Args["proposal_id"] = []byte(f[1])
 		req.Args["amount"] = []byte(s.Raw)
@@ -613,6 +670,8 @@ func (i *inst) Apply(ev string) string {
 	i.applied = append(i.applied, ev)
 	i.seq++
 	i.pre = i.cur
+	i.preDue, i.preOpen = i.due(i.cur)
+	i.rethaw = false
 	var s *step
 	var txs []*pb.Transaction
 	if ev == "tick" {
@@ -656,6 +715,7 @@ func (i *inst) Apply(ev string) string {
 			s.Obs += fmt.Sprintf(" timer%v", s.Fired)
 		}
 	}
+	i.book(s)
 	switch {
 	case s.HasAmt && !s.Canon:
 		s.Obs += " amt=" + strconv.Quote(s.Raw)
@@ -664,6 +724,96 @@ func (i *inst) Apply(ev string) string {
 	}
 	i.last = s
 	return s.Obs
+}
+
+// ---------------------------------------------------------------------------
+// obligations: the reference bookkeeping of what every account has locked for
+// which proposal. It is kept by the harness from the committed calls alone
+// (Propose: the deposit; Vote: the amount; Thaw by the holder of the deposit:
+// the deposit is released) and never reads the contract's own lock records.
+
+// book records the obligations that the committed call s creates or releases.
+func (i *inst) book(s *step) {
+	f := strings.Split(s.Ev, ":")
+	if s.Kind == "thaw" {
+		// vacuity guard: a Thaw of a proposal whose deposit is already released
+		if i.thawed[f[1]] && i.deposit[f[1]] == addrOf(s.From) {
+			i.rethaw = true
+		}
+	}
+	if !s.Committed {
+		return
+	}
+	addTo := func(pid, addr string, n *big.Int) {
+		m := i.oblig[pid]
+		if m == nil {
+			m = map[string]*big.Int{}
+			i.oblig[pid] = m
+		}
+		if m[addr] == nil {
+			m[addr] = new(big.Int)
+		}
+		m[addr].Add(m[addr], n)
+	}
+	switch s.Kind {
+	case "propose":
+		pid := i.cur.Raw[bktProposal]["id"]
+		if pid == "" || pid == i.pre.Raw[bktProposal]["id"] {
+			return // no new proposal came into being
+		}
+		addTo(pid, addrOf(s.From), big.NewInt(proposalDeposit))
+		i.deposit[pid] = addrOf(s.From)
+	case "vote":
+		// an amount argument that is no number, or a negative one, has no agreed
+		// value: nothing is booked (its acceptance is judged by the other oracles)
+		if s.Amt != nil && s.Amt.Sign() > 0 && i.pre.status(f[1]) != "" {
+			addTo(f[1], addrOf(s.From), s.Amt)
+		}
+	case "thaw":
+		if i.deposit[f[1]] == addrOf(s.From) && !i.thawed[f[1]] {
+			addTo(f[1], addrOf(s.From), big.NewInt(-proposalDeposit))
+			i.thawed[f[1]] = true
+		}
+	}
+}
+
+// due sums, per account, what it has locked for proposals whose status in t is
+// still "voting", and counts those proposals.
+func (i *inst) due(t *tables) (map[string]*big.Int, map[string]int) {
+	sum, open := map[string]*big.Int{}, map[string]int{}
+	for pid, m := range i.oblig {
+		if t.status(pid) != "voting" {
+			continue
+		}
+		for addr, n := range m {
+			if n.Sign() <= 0 {
+				continue
+			}
+			if sum[addr] == nil {
+				sum[addr] = new(big.Int)
+			}
+			sum[addr].Add(sum[addr], n)
+			open[addr]++
+		}
+	}
+	return sum, open
+}
+
+// obligKey renders the reference bookkeeping for the state key.
+func (i *inst) obligKey() string {
+	var out []string
+	for pid, m := range i.oblig {
+		for addr, n := range m {
+			if n.Sign() != 0 {
+				out = append(out, fmt.Sprintf("due/%s/%s=%s\n", pid, addr, n))
+			}
+		}
+	}
+	for pid, addr := range i.deposit {
+		out = append(out, fmt.Sprintf("deposit/%s=%s thawed=%v\n", pid, addr, i.thawed[pid]))
+	}
+	sort.Strings(out)
+	return strings.Join(out, "")
 }
 
 // firedProposals lists the proposals whose timer task was due at height h.
@@ -709,6 +859,7 @@ func (i *inst) Key() string {
 	if i.pendingTimers() {
 		fmt.Fprintf(&sb, "height=%d\n", i.tip.Height)
 	}
+	sb.WriteString(i.obligKey())
 	// what a TDPoS call naming the previous height would read
 	keys := make([]string, 0, len(i.tdposOld))
 	for k := range i.tdposOld {
@@ -731,7 +882,11 @@ func (i *inst) proposalIDs() []string {
 		n, _ = strconv.Atoi(v)
 	}
 	var out []string
-	for k := 1; k <= n && k <= 2; k++ {
+	max := 2
+	if i.alpha == "obligations" {
+		max = i.maxProps
+	}
+	for k := 1; k <= n && k <= max; k++ {
 		out = append(out, strconv.Itoa(k))
 	}
 	return out
@@ -744,6 +899,9 @@ func (i *inst) Enabled() []string {
 // withSweeps appends the two sweeps (self loops): the amount sweep in every
 // state, the name sweep after histories of at most nameDepth calls.
 func (i *inst) withSweeps(evs []string) []string {
+	if i.alpha == "obligations" {
+		return evs // this pass varies the life cycles, not the arguments
+	}
 	evs = append(evs, "sweep")
 	if len(i.applied) <= i.nameDepth {
 		evs = append(evs, "names")
@@ -762,6 +920,8 @@ func (i *inst) enabledCalls() []string {
 		return i.enabledProposal()
 	case "names":
 		return i.enabledNames()
+	case "obligations":
+		return i.enabledObligations()
 	}
 	evs := []string{"init", "tick"}
 	for _, from := range accounts {
@@ -836,6 +996,29 @@ func (i *inst) enabledProposal() []string {
 	for _, p := range ids {
 		for _, who := range []string{"a", "b"} {
 			for _, a := range []string{"500", "all"} {
+				evs = append(evs, fmt.Sprintf("vote:%s:%s:%s", p, who, a))
+			}
+			evs = append(evs, fmt.Sprintf("thaw:%s:%s", p, who))
+		}
+	}
+	return evs
+}
+
+// enabledObligations is the alphabet of the pass over overlapping proposal life
+// cycles: up to maxProps proposals of a and b with a short or a long voting
+// period, votes of 500 and of exactly what the proposal lacks to pass, Thaw by
+// either account (repeatable: a Thaw stays offered after it succeeded) and
+// block ticks (the timer tasks of the stop-vote and trigger heights).
+func (i *inst) enabledObligations() []string {
+	evs := []string{"tick"}
+	ids := i.proposalIDs()
+	n, _ := strconv.Atoi(i.cur.Raw[bktProposal]["id"])
+	if n < i.maxProps {
+		evs = append(evs, "propose:a", "propose:a:l", "propose:b", "propose:b:l")
+	}
+	for _, p := range ids {
+		for _, who := range []string{"a", "b"} {
+			for _, a := range []string{"500", "pass"} {
 				evs = append(evs, fmt.Sprintf("vote:%s:%s:%s", p, who, a))
 			}
 			evs = append(evs, fmt.Sprintf("thaw:%s:%s", p, who))
@@ -1097,6 +1280,13 @@ func (i *inst) check(hist []string) []core.Violation {
 		if len(s.Fired) > 0 {
 			i.cnt.add("timer_fired_blocks")
 		}
+		if i.rethaw {
+			// vacuity guard of the obligations dimension: Thaw of an already thawed proposal
+			i.cnt.add("oblig:repeated_thaw:" + outcome)
+			if d := i.preDue[addrOf(s.From)]; d != nil && d.Sign() > 0 {
+				i.cnt.add("oblig:repeated_thaw_while_caller_owes_another_open_proposal:" + outcome)
+			}
+		}
 		for k, v := range post.Raw[bktProposal] {
 			if _, err := strconv.Atoi(k); err != nil {
 				continue
@@ -1343,6 +1533,86 @@ func (i *inst) check(hist []string) []core.Violation {
 		}
 	}
 
+	// 3d. obligations: in every reachable state the ordinary lock of an account
+	// covers what it has locked (reference bookkeeping: deposits and votes of the
+	// committed calls) for the proposals that are still being voted on. A lock that
+	// is released while the proposal it was made for is still open - by whatever
+	// call or timer task, of this or of another proposal - shows up here. Flagged
+	// at the step that opens or widens the shortfall.
+	if pre.initialised() {
+		due, open := i.due(post)
+		addrs := make([]string, 0, len(due))
+		for addr := range due {
+			addrs = append(addrs, addr)
+		}
+		sort.Strings(addrs)
+		multi := false
+		for _, addr := range addrs {
+			if open[addr] >= 2 {
+				multi = true
+			}
+			short1 := new(big.Int).Sub(due[addr], post.bal(addr).lock(typeOrdinary))
+			short0 := new(big.Int)
+			if d := i.preDue[addr]; d != nil {
+				short0.Sub(d, pre.bal(addr).lock(typeOrdinary))
+			}
+			if short1.Sign() <= 0 || short1.Cmp(short0) <= 0 {
+				continue
+			}
+			by := s.Kind
+			if len(s.Fired) > 0 {
+				by = "timer_task"
+			}
+			var openIDs []string
+			for pid, m := range i.oblig {
+				if post.status(pid) == "voting" && m[addr] != nil && m[addr].Sign() > 0 {
+					openIDs = append(openIDs, pid+":"+m[addr].String())
+				}
+			}
+			sort.Strings(openIDs)
+			add("c19.lock_below_open_obligations."+by,
+				fmt.Sprintf("%s%s left %s with an ordinary lock of %s (before: %s) although it has %s locked for proposals that are still being voted on (proposal:amount %v)", s.Ev, amtNote, nameOfAddr(addr), post.bal(addr).lock(typeOrdinary), pre.bal(addr).lock(typeOrdinary), due[addr], openIDs),
+				fmt.Sprintf("locked[ordinary] of %s >= %s", nameOfAddr(addr), due[addr]), "locked[ordinary] = "+post.bal(addr).lock(typeOrdinary).String())
+		}
+		if i.probeClass == "" {
+			// vacuity guards of the obligations dimension
+			i.cnt.add("oblig:transitions_judged")
+			if len(due) > 0 {
+				i.cnt.add("oblig:states_with_open_obligations")
+			}
+			if multi {
+				i.cnt.add("oblig:states_where_one_account_owes_two_open_proposals")
+			}
+			for _, p := range s.Fired {
+				st0, st1 := pre.status(p), post.status(p)
+				if st0 == "voting" && st1 == "passed" {
+					i.cnt.add("oblig:tally_blocks_proposal_passed")
+				}
+				if st0 == "voting" && st1 == "rejected" {
+					i.cnt.add("oblig:tally_blocks_proposal_rejected")
+				}
+				if st0 == "passed" && st1 != "passed" {
+					i.cnt.add("oblig:trigger_blocks")
+					owes, owesAsMuch := false, false
+					for addr, n := range i.oblig[p] {
+						if n.Sign() > 0 && due[addr] != nil && due[addr].Sign() > 0 {
+							owes = true
+							if due[addr].Cmp(n) >= 0 {
+								owesAsMuch = true
+							}
+						}
+					}
+					if owes {
+						i.cnt.add("oblig:trigger_blocks_where_a_voter_owes_another_open_proposal")
+					}
+					if owesAsMuch {
+						i.cnt.add("oblig:trigger_blocks_where_a_voter_owes_another_open_proposal_at_least_as_much")
+					}
+				}
+			}
+		}
+	}
+
 	// 3c. a balance goes down only through a transfer that this very account
 	// initiated: no call lowers the balance of anybody but its initiator, and no
 	// call other than Transfer lowers a balance at all
@@ -1463,10 +1733,13 @@ func run(tier core.Tier) *core.Report {
 	// (quick: the proposal pass' states after <= 2 calls are states of the full
 	// pass, which sweeps them)
 	nameFull, nameDeep, nameNames, nmDepth := 2, 1, 2, 3
+	// pass "obligations": bound and number of proposals
+	obDepth, obProps := 5, 2
 	if tier == core.Thorough {
 		depth, deep = 5, 7
 		spell, spellDeep = 3, 4
 		nameFull, nameDeep, nameNames, nmDepth = 2, 3, 3, 4
+		obDepth, obProps = 6, 3
 	}
 	cnt := &counters{m: map[string]int{}}
 	col := &collector{m: map[string]*found{}}
@@ -1475,13 +1748,22 @@ func run(tier core.Tier) *core.Report {
 	cfg2 := xplore.Config{Name: "c19/proposal", New: func() xplore.Instance { return newInst(cnt, col, "proposal", spellDeep, nameDeep) }, MaxDepth: deep, Report: rep}
 	// pass over histories in which records under alias names exist (reduced alphabet)
 	cfg3 := xplore.Config{Name: "c19/names", New: func() xplore.Instance { return newInst(cnt, col, "names", spell, nameNames) }, MaxDepth: nmDepth, Report: rep}
-	var st, st2, st3 xplore.Stats
+	// pass over overlapping proposal life cycles (short / long voting periods,
+	// votes that make a proposal pass, repeated Thaw), no sweeps
+	cfg4 := xplore.Config{Name: "c19/obligations", New: func() xplore.Instance {
+		i := newInst(cnt, col, "obligations")
+		i.maxProps = obProps
+		return i
+	}, MaxDepth: obDepth, Report: rep}
+	var st, st2, st3, st4 xplore.Stats
 	if tier == core.Thorough {
 		// the cheaper passes first: the full pass may use up the budget
 		st3 = xplore.Explore(cfg3)
+		st4 = xplore.Explore(cfg4)
 		st2 = xplore.Explore(cfg2)
 		st = xplore.Explore(cfg)
 	} else {
+		st4 = xplore.Explore(cfg4)
 		st = xplore.Explore(cfg)
 		st2 = xplore.Explore(cfg2)
 		st3 = xplore.Explore(cfg3)
@@ -1501,6 +1783,11 @@ func run(tier core.Tier) *core.Report {
 	st.Fill(rep, "full.")
 	st2.Fill(rep, "proposal.")
 	st3.Fill(rep, "names.")
+	st4.Fill(rep, "obligations.")
+	// and one trace of the obligations pass: a proposal passes, a voter locks for a second one before the trigger
+	sample4 := []string{"init", "propose:a", "vote:1:b:500", "vote:1:a:pass", "propose:b:l", "tick"}
+	obs4, _ := xplore.Replay(func() xplore.Instance { return newInst(&counters{m: map[string]int{}}, nil, "full") }, sample4)
+	rep.Sample(map[string]interface{}{"history": sample4, "observations": obs4, "note": "'propose:x:l' has the long voting period, 'vote:p:x:pass' votes what proposal p lacks to pass"})
 	col.flush(rep)
 
 	cnt.mu.Lock()
@@ -1515,7 +1802,15 @@ func run(tier core.Tier) *core.Report {
 	nameByKind, nameByClass, nameChanged, nameOutcome := map[string]int{}, map[string]int{}, map[string]int{}, map[string]int{}
 	nameCalls, nameStates := 0, 0
 	nameGuards := map[string]int{"states_with_alias_records": 0, "transfers_to_existing_alias_record": 0, "transfers_to_new_alias_record": 0}
+	obligGuards := map[string]int{"transitions_judged": 0, "states_with_open_obligations": 0, "states_where_one_account_owes_two_open_proposals": 0,
+		"repeated_thaw:rejected": 0, "repeated_thaw_while_caller_owes_another_open_proposal:rejected": 0,
+		"tally_blocks_proposal_passed": 0, "tally_blocks_proposal_rejected": 0, "trigger_blocks": 0,
+		"trigger_blocks_where_a_voter_owes_another_open_proposal": 0, "trigger_blocks_where_a_voter_owes_another_open_proposal_at_least_as_much": 0}
 	for k, v := range cnt.m {
+		if strings.HasPrefix(k, "oblig:") {
+			obligGuards[strings.TrimPrefix(k, "oblig:")] = v
+			continue
+		}
 		if strings.HasPrefix(k, "nprobe:") { // nprobe:<kind>:<class>:<outcome>
 			f := strings.Split(k, ":")
 			nameByKind[f[1]+":"+f[3]] += v
@@ -1591,8 +1886,10 @@ func run(tier core.Tier) *core.Report {
 	rep.Set("name_sweep.committed_calls_that_changed_the_tables_by_class", nameChanged)
 	rep.Set("name_sweep.vacuity_guards", nameGuards)
 	rep.Set("name_sweep.rule", fmt.Sprintf("account-name dimension: in every state reached by a history of <= %d (full) / <= %d (proposal) / <= %d (names pass) calls the event 'names' sends every method that takes an account name with every name of the alphabet (%d distinct strings: each form of name_alphabet applied to the address of a, b and c, and the absolute names; duplicates dropped): Transfer (sender a|b|c in the full pass, a|b otherwise; to = the name; amount 1 and the sender's whole available balance), direct $govern_token.Lock / UnLock (initiator a|b; from = the name; lock type ordinary|tdpos; amount 1), TDPoS nominateCandidate / voteCandidate / revokeVote / revokeNominate (initiator a|b; candidate = the name; amount 1; height = tip). $proposal methods take no account name. A call refused by pre-execution counts as rejected; a call it accepts is executed as an ordinary transition on a fresh instance and judged by all oracles. The oracles do not depend on the names the harness uses: conservation sums EVERY record stored under the balance prefix of the governToken bucket (full scan), balance >= lock, lock moves and balance decreases are checked for every stored record, and the state's balance query is compared with every stored record. Nothing is assumed about which spellings denote the same account or are refused. Pass 'names' makes transfers to the alias spellings %v ordinary events, so that later calls (and the sweeps) meet records that exist under alias names. Violation keys of calls with an alias name carry '.alias_name' (conservation broken upwards by such a transfer: c19.transfer_to_alias_name_mints)", nameFull, nameDeep, nameNames, len(aliases()), namesPassTargets))
-	rep.Set("bound", fmt.Sprintf("pass 'full': all call sequences of length <= %d over Init, Transfer(from,to in {a,b,c fresh} incl. to=from; 0,1,500,1000,all,all+1 and, with locks, available / available+1), Propose(a|b), Vote(p,a|b;0,500,all), Thaw(p,a|b), block ticks (timer tasks: CheckVoteResult / Trigger), TDPoS nominate / vote / revokeVote / revokeNominate (1,500,all; revokes naming the tip or the height before it), direct Lock / UnLock, and as last call of every sequence each call of the amount sweep (amount_sweep.rule); pass 'proposal': length <= %d over Init, Transfer a<->b (500, all | available, available+1), Propose, Vote (500, all), Thaw, ticks, amount sweep last; genesis quotas a=%d b=%d; pass 'names': length <= %d over Init, Transfer from a|b to a, b and the alias spellings %v (500, available), Propose(a), nominate(b,500), ticks, both sweeps last; every pass: the name sweep (name_sweep.rule) as last call of the short sequences; merged on the committed content of the governToken, proposal, timer and $tdpos buckets (+ height while timer tasks are pending)", depth, deep, quotaA, quotaB, nmDepth, namesPassTargets))
-	rep.Set("exhaustive", st.Completed && st2.Completed && st3.Completed)
+	rep.Set("obligations.vacuity_guards", obligGuards)
+	rep.Set("obligations.rule", fmt.Sprintf("obligations dimension: the harness keeps its own ledger of what every account has locked for which proposal, from the committed calls alone (Propose: deposit %d of the proposer; Vote(p, n): n of the voter; Thaw(p) by the proposer: its deposit is released once; the contract's lock records are not read). After EVERY transition of EVERY pass (and every committed sweep call) the oracle demands for every account: locked[ordinary] >= sum of its ledger entries for the proposals whose stored status is still 'voting' (c19.lock_below_open_obligations.<call kind | timer_task>, flagged where the shortfall opens or widens). The ledger is part of the state key. Pass 'obligations' enumerates all sequences of length <= %d over Init, Propose by a|b with the short (stop tip+%d, trigger tip+%d) or the long (tip+%d / tip+%d) voting period while fewer than %d proposals exist, Vote(p, a|b, 500 | 'pass' = what p lacks to reach %d%% of the supply = %d), Thaw(p, a|b) - offered again after it succeeded and for every status - and block ticks; the timer tasks of both heights (CheckVoteResult, Trigger) run in the blocks of those heights, after the block's call. vacuity_guards count, over the ordinary transitions of all passes: states in which one account owes two open proposals, repeated Thaw calls (by outcome; '_while_caller_owes_another_open_proposal': the class in which a second release would hit another proposal's tokens), blocks whose tally made a proposal pass / rejected it, blocks that ran the Trigger of a passed proposal, and those among them in which a voter of the triggered proposal owes another open proposal (at least as much as its record: a second release of the record would succeed)", proposalDeposit, obDepth, shortStop, shortTrigger, longStop, longTrigger, obProps, minVotePercent, passThreshold))
+	rep.Set("bound", fmt.Sprintf("pass 'obligations': see obligations.rule (length <= %d, <= %d proposals, no sweeps); pass 'full': all call sequences of length <= %d over Init, Transfer(from,to in {a,b,c fresh} incl. to=from; 0,1,500,1000,all,all+1 and, with locks, available / available+1), Propose(a|b), Vote(p,a|b;0,500,all), Thaw(p,a|b), block ticks (timer tasks: CheckVoteResult / Trigger), TDPoS nominate / vote / revokeVote / revokeNominate (1,500,all; revokes naming the tip or the height before it), direct Lock / UnLock, and as last call of every sequence each call of the amount sweep (amount_sweep.rule); pass 'proposal': length <= %d over Init, Transfer a<->b (500, all | available, available+1), Propose, Vote (500, all), Thaw, ticks, amount sweep last; genesis quotas a=%d b=%d; pass 'names': length <= %d over Init, Transfer from a|b to a, b and the alias spellings %v (500, available), Propose(a), nominate(b,500), ticks, both sweeps last; every pass: the name sweep (name_sweep.rule) as last call of the short sequences; merged on the committed content of the governToken, proposal, timer and $tdpos buckets (+ height while timer tasks are pending, + the obligations ledger)", obDepth, obProps, depth, deep, quotaA, quotaB, nmDepth, namesPassTargets))
+	rep.Set("exhaustive", st.Completed && st2.Completed && st3.Completed && st4.Completed)
 	rep.Assume("TDPoS kernel methods are the real ones: bcs/consensus/tdpos.NewTdposConsensus (non-BFT) constructed on the world's contract manager and agent.NewLedgerAgent with a stub network (only PeerInfo is used); the chain's own consensus stays 'single' (block production is done by the harness as Miner.packBlock does)")
 	rep.Assume("genesis has nofee=true (gas prices 0, transactions without UTXO inputs are admissible, as Chain.SubmitTx allows on such chains) so that fees do not bound the call sequences")
 	rep.Assume("every committed call is a transaction that passed State.VerifyTx + DoTx and was packed alone into the next block together with the timer transaction of that height; contract.Manager pre-execution as Chain.PreExec")
